@@ -11,7 +11,7 @@ from .seqlib import exc_name
 UNINIT, UNDEF, NONE = 0, 1, 2     # fixed pool ids (Model/Wrappers.lean)
 
 
-class HandlerError(Exception):
+class HandlerError(RuntimeError):
     """Raised by a recording handler told to raise."""
 
 
@@ -64,7 +64,7 @@ def catalogue():
     cat = [
         ("Uninitialized", Uninitialized), ("Undefined", Undefined), ("None", None),
         ("int1", 1), ("float1", 1.0), ("true", True), ("int7", 7),
-        ("big_a", 10 ** 20), ("big_b", 10 ** 19 * 10),
+        ("big_a", int("1" + "0" * 20)), ("big_b", int("1" + "0" * 20)),
         ("str_a", "".join(["a", "b"])), ("str_b", "".join(["a", "b"])), ("str_c", "zz"),
         ("nan", float("nan")), ("nan2", float("nan")),
         ("tup_a", tuple([1, 2])), ("tup_b", tuple([1, 2])),
@@ -218,8 +218,6 @@ class ExcHandlers:
 
 
 def show_exc(e):
-    if isinstance(e, HandlerError):
-        return "RuntimeError"
     return exc_name(e)
 
 
